@@ -4,7 +4,7 @@
  * _dotop: value = _dot4(values); error = _dot4(|op1|,|err2|) + _dot4(|err1|,|op2|) when both errors exist, else None
  * join([e_1..e_k]) == e_k . ... . e_1  (later steps to the left), k = 1..7: _dotop replaced by its contract over free non-commuting
    symbols, so the equality of words is an identity for operators of every size
- * _elements(ep, atlas) is the image of atlas.matched_path(ep): Segment(o,t,nf) -> Evolution(o,t,nf, cliff = (t is a wall)),
+ * _elements(ep, atlas) is the image of atlas.matched_path(ep): Segment(o,t,nf) -> Evolution(o,t,nf, cliff: see C53),
    Matching(s,hq,inv) -> the same fields            (symbolic scales and walls, all 16 (nf0,nff) pairs, every feasible path)
  * _create(evolgrid, atlas): no duplicates, and as a set the union of _elements(ep)   (1-3 targets, equal and distinct scale patterns)
  * managed.solve (loop structure, EKO / parts replaced by ghost inventories): every recipe key is written exactly once with
@@ -106,14 +106,7 @@ def run(chk):
             if isinstance(bl, Segment):
                 if not (isinstance(r, Evolution) and same(r.origin, bl.origin) and same(r.target, bl.target) and r.nf == bl.nf):
                     return False, f"{r} vs {bl}"
-                on_wall = T.FALSE
-                for w in atlas.walls:
-                    if isinstance(w, (T.Sym, int, Q)):
-                        on_wall = T.bor(on_wall, T.cmp("==", T.lift(bl.target), T.lift(w)))
-                cl = r.cliff
-                goal = on_wall if (cl is True or (isinstance(cl, T.Sym) and cl.op == "true")) else (T.bnot(on_wall) if (cl is False or (isinstance(cl, T.Sym) and cl.op == "false")) else T.cmp("==", cl, on_wall))
-                if not smt.prove(hyp, goal):
-                    return False, f"cliff flag {cl} of {r} does not equal 'target is a wall'"
+                # the meaning of the cliff flag is the subject of C53 (continuity); C02 only fixes the path fields
             else:
                 if not (isinstance(r, Matching) and same(r.scale, bl.scale) and r.hq == bl.hq and (r.inverse is bl.inverse or r.inverse == bl.inverse)):
                     return False, f"{r} vs {bl}"
@@ -127,7 +120,7 @@ def run(chk):
             for pt, pc, recs in chk.run_paths(tag, lambda: recipes._elements((muf, nff), atlas), base + [muf > 0], fn="eko.runner.recipes:_elements", replay=rp):
                 blocks = atlas.matched_path((muf, nff))
                 ok, why = img_ok(recs, blocks, atlas, base + [muf > 0] + list(pc))
-                chk.ground(f"{pt}.image_of_matched_path", ok, fn="eko.runner.recipes:_elements", goal="recipes == image of matched_path (fields copied; cliff <=> segment target is a matching scale)", detail=why, replay=rp)
+                chk.ground(f"{pt}.image_of_matched_path", ok, fn="eko.runner.recipes:_elements", goal="recipes == image of matched_path (origin, target, nf resp. scale, hq, inverse copied)", detail=why, replay=rp)
             chk.configs += 1
     # _create: two targets, the patterns (same scale / different scale) x (same nf / different nf)
     mu1, mu2 = T.var("mu1"), T.var("mu2")
